@@ -43,6 +43,10 @@ class OldApiScenario:
             self.size = (ch.int("iw", 1, cols + 2), ch.int("ih", 1, rows + 3))
         else:
             self.size = ch.pick("dynsize", ("FIT", "AUTO", "ORIGINAL", "FIT_TO_WIDTH"))
+            if self.size == "FIT_TO_WIDTH":
+                # a thin, tall source stretched to the terminal's width is thousands of lines
+                # high (hundreds of megabytes of graphics payload): keep the aspect sane
+                self.src_h = min(self.src_h, 2 * self.src_w + 2)
         self.h_align = ch.pick("h_align", (None, "<", "|", ">", "left", "center", "right"))
         self.v_align = ch.pick("v_align", (None, "^", "-", "_", "top", "middle", "bottom"))
         self.pad_width = ch.weighted("pwk", [(3, 0), (2, "abs"), (1, "rel"), (1, "big")])
